@@ -492,7 +492,7 @@ def tz_strategy():
 
 
 def shards(tier, seed):
-    n, per, mx = (12, 10, 20) if tier == "quick" else (48, 50, 36)
+    n, per, mx = (12, 10, 20) if tier == "quick" else (48, 36, 36)
     specs = [{"n": per, "max_ops": mx, "seed": seed * 1000 + i} for i in range(n)]
     ns, pers = (8, 2) if tier == "quick" else (32, 6)
     specs += [{"sweep": True, "n": pers, "max_ops": 0, "seed": seed * 1000 + 500 + i} for i in range(ns)]
